@@ -23,7 +23,7 @@ EXHAUSTIVE_SUBDOMAINS = ["DF 0..31 x TC 0..31 x subtype 0..7 x {zero, ones, rand
 ASSUMPTIONS = ["shape predicates and guard domains are transcribed from the docstrings / error messages of the functions",
                "low-level helpers without a documented domain (e.g. *_with_ref, oe_flag, commb field decoders) are judged for "
                "exception type and shape only"]
-REQUIRED = ["reference_aimed_at_solution_midpoints", "long_frames", "short_frames", "tell", "tell_on_ascii_only_stdout", "tell_without_standard_output", "routing", "guards", "matrix_df17", "matrix_other_df"]
+REQUIRED = ["reference_aimed_at_solution_midpoints", "long_frames", "short_frames", "tell", "tell_on_ascii_only_stdout", "tell_without_standard_output", "tell_on_a_write_only_stdout", "routing", "guards", "matrix_df17", "matrix_other_df"]
 
 # functions that are known to raise ValueError/IndexError on 14-digit frames (empty MB/ME slice); see KNOWN_FINDINGS
 SHORT_FRAME_FUNCS = None  # filled lazily: every commb/adsb function that slices bits beyond 56
@@ -334,6 +334,23 @@ def m_frames(ctx, case):
                 ctx.violation("tell-raises-%s-without-a-standard-output" % (rn[1] if rn[0] == "exc" else "nothing"), frame=hx, observed=rn[1:],
                               with_a_stream=r[:2])
             ctx.hit("tell_without_standard_output")
+        if k % 4 == 1:
+            # ... and on a standard output that is the MINIMAL text sink print() asks for - an object with write(str) and nothing
+            # else (a redirector into a GUI pane or a logger)
+            class _WriteOnly:
+                def __init__(self):
+                    self.parts = []
+
+                def write(self, s_):
+                    self.parts.append(s_)
+                    return len(s_)
+            wo = _WriteOnly()
+            with contextlib.redirect_stdout(wo):
+                rw = call(pms.tell, hx)
+            ctx.ev()
+            if rw[:2] != r[:2] or (rw[0] == "ok" and "".join(wo.parts) != buf.getvalue()):
+                ctx.violation("tell-differs-on-a-write-only-standard-output", frame=hx, observed=rw[1:], with_a_full_stream=r[:2])
+            ctx.hit("tell_on_a_write_only_stdout")
         if r[0] == "exc" and r[1] != "RuntimeError":
             key = classify_exc("tell", f, r)
             if key.startswith("non-Runtime"):
